@@ -993,6 +993,18 @@ class Gen:
         r = self.r
         style = r.choice([0, 1, 2, 2, 2, 3, 4, 5, 6, 6])  # nested / re-entered left recursion is where most of the subtlety is
         ops = r.sample(["+", "-", "*", "x", "ab", "=>", ","], 3)
+        # blank-looking operators: characters that Rust's char::is_whitespace / str::trim accept but the grammar does not
+        # skip (VT, NBSP, EM SPACE), and - in a @no_skip_ws left-recursive rule - the skipped ones themselves: "the rest
+        # of the input is blank" is not "end of input" for a growth step.  Decided by a side stream so that no other
+        # generated grammar changes.
+        side = random.Random("lr-blank-ops/%r/%r/%d" % (getattr(self, "fieldpool", None), ops, style))
+        lr_no_skip = False
+        if side.random() < (0.6 if style in (3, 4) else 0.25):
+            if side.random() < 0.3:
+                ops[0] = side.choice([" ", "\t", "\n ", " \r"])
+                lr_no_skip = True
+            else:
+                ops[0 if side.random() < 0.75 else 1] = side.choice(["\x0b", "\u00a0", "\u2003", "+\u00a0", "\x0b\x0b", "\u2003-"])
         d_pos = (lambda: ["position"] if self.coin(self.p["p_position"]) else [])
         atom_body = r.choice([
             Cho([Seq([Clo(Cho([Seq([Rng("0", "9")])]), True)])]),
@@ -1113,6 +1125,10 @@ class Gen:
         if self.coin(0.3):
             for ru in rules:
                 if ru.name != "LAtom" and "no_skip_ws" not in ru.directives:
+                    ru.directives.append("no_skip_ws")
+        if lr_no_skip:
+            for ru in rules:
+                if "no_skip_ws" not in ru.directives:
                     ru.directives.append("no_skip_ws")
         return {"entry": entry, "rules": rules}
 
